@@ -8,6 +8,7 @@ Code -> spec: SccWord.from_value is run on all 65 536 values (both tiers: exhaus
 """
 from __future__ import annotations
 
+from ..core import flag
 import itertools
 import json
 import re
@@ -175,13 +176,13 @@ def observe(value):
     o["col"] = colour_name(code.get_color())
     o["it"] = 1 if code.get_font_style() is FontStyleType.italic else 0
     td = code.get_text_decoration()
-    o["ul"] = 1 if td is not None and td.underline else 0
+    o["ul"] = flag(td.underline) if td is not None else 0
   elif isinstance(code, SccMidRowCode):
     o["cls"] = "MIDROW"
     o["col"] = colour_name(code.get_color())
     o["it"] = 1 if code.get_font_style() is FontStyleType.italic else 0
     td = code.get_text_decoration()
-    o["ul"] = 1 if td is not None and td.underline else 0
+    o["ul"] = flag(td.underline) if td is not None else 0
   elif isinstance(code, SccControlCode):
     o["cls"] = "CONTROL"
     o["nm"] = code.get_name()
@@ -191,7 +192,7 @@ def observe(value):
     a = code.get_color().components[3]
     o["nm"] = "fg" if not code.is_background() else {0xFF: "opaque", 0x88: "semi", 0x00: "transparent"}.get(a, "alpha%d" % a)
     td = code.get_text_decoration()
-    o["ul"] = 1 if td is not None and td.underline else 0
+    o["ul"] = flag(td.underline) if td is not None else 0
   elif isinstance(code, SccSpecialCharacter):
     o["cls"] = "SPECIAL"
     o["cps"] = [ord(c) for c in code.get_unicode_value()]
